@@ -856,6 +856,7 @@ class Lexer:
                         source=self.source,
                     )
                 )
+                self.start = self.pos
                 continue
 
             if kind == "RAW":
@@ -892,6 +893,7 @@ class Lexer:
                         source=self.source,
                     )
                 )
+                self.start = self.pos
                 continue
 
             if kind == "COMMENT_TAG":
